@@ -342,6 +342,9 @@ pub fn run_fin_op(me: &Node, op: &FinOp) {
         }
         FinOp::DropHandle(sel) => {
             if let Some((i, _, _)) = sel_handle(*sel) {
+                if w(|w| w.pinned.contains(&i)) {
+                    return; // borrowed by the API call that is running this callback
+                }
                 let (oid, cc) = take_handle(i);
                 prim_drop(cc, oid);
             }
@@ -420,6 +423,9 @@ pub fn do_upgrade(sel: Sel, top: bool) {
 /// return `Err` (C12); at top level `Ok` iff unique (C13).
 pub fn do_try_unwrap(sel: Sel, top: bool) {
     let Some((i, oid, _)) = sel_handle(sel) else { return };
+    if w(|w| w.pinned.contains(&i)) {
+        return; // borrowed by the API call that is running this callback
+    }
     let (oid2, cc) = take_handle(i);
     debug_assert_eq!(oid, oid2);
     let pre = w(|w| {
@@ -610,10 +616,11 @@ pub fn do_new_cyclic(spec: &Spec, clo: &[CloOp]) {
                 o.box_align = b.align;
             }
         });
-        struct ClosureGuard(Oid);
+        struct ClosureGuard(Oid, bool);
         impl Drop for ClosureGuard {
             fn drop(&mut self) {
                 let oid = self.0;
+                let completed = self.1;
                 w(|w| {
                     w.frames.pop();
                     let n = w.extra_weak.get_mut(&oid).unwrap();
@@ -621,7 +628,7 @@ pub fn do_new_cyclic(spec: &Spec, clo: &[CloOp]) {
                     if *n == 0 {
                         w.extra_weak.remove(&oid);
                     }
-                    if std::thread::panicking() {
+                    if !completed {
                         let o = &mut w.objs[oid as usize];
                         o.uninit = false;
                         o.never_init = true;
@@ -629,7 +636,7 @@ pub fn do_new_cyclic(spec: &Spec, clo: &[CloOp]) {
                 });
             }
         }
-        let _cg = ClosureGuard(oid);
+        let mut _cg = ClosureGuard(oid, false);
         // C14: dead inside
         let (sc, wc) = {
             let _b = Bracket::open();
@@ -770,6 +777,7 @@ pub fn do_new_cyclic(spec: &Spec, clo: &[CloOp]) {
                 *node.slot(s).borrow_mut() = Some(cc);
             }
         }
+        _cg.1 = true;
         node
     };
     let res = catch_unwind(AssertUnwindSafe(|| {
